@@ -180,10 +180,10 @@ func cmdCheck(args []string) {
 			seed = k
 		}
 	}
-	timeout := 20
+	timeout := 45
 	thorough := false
 	if *tier == "thorough" {
-		timeout = 60
+		timeout = 120
 		thorough = true
 	}
 	// configuration
